@@ -201,6 +201,46 @@ def dec_tek(text, bytesum=False):
     return mem, None, info
 
 
+def dec_dsk(text):
+    """TI DSK: header K_DSKA_1.00_DSK_<name>, records 9aaaa {Bdddd|Mdddd}... 7ccccF, optional entry 1aaaa7ccccF, end ':'.
+    Returns ({(kind, word address): word}, entry, info); kind 'B' = program, 'M' = data memory.  The checksum field is returned
+    in info['sums'] as (written, sum of the record's data words) pairs - its defining document is not available offline."""
+    lines = [l for l in text.split('\n') if l]
+    if not lines or not lines[0].startswith('K_DSKA_1.00_DSK_'):
+        raise FmtErr('header line')
+    if lines[-1] != ':':
+        raise FmtErr('end line')
+    mem, entry, sums = {}, None, []
+    for ln in lines[1:-1]:
+        m = re.fullmatch(r'1([0-9A-F]{4})7([0-9A-F]{4})F', ln)
+        if m:
+            entry = int(m.group(1), 16)
+            continue
+        m = re.fullmatch(r'9([0-9A-F]{4})((?:[BM][0-9A-F]{4})+)7([0-9A-F]{4})F', ln)
+        if not m:
+            raise FmtErr('line ' + ln[:40])
+        a = int(m.group(1), 16)
+        tot = 0
+        for k, (kind, w) in enumerate(re.findall(r'([BM])([0-9A-F]{4})', m.group(2))):
+            key = (kind, a + k)
+            if key in mem:
+                raise FmtErr('address %x written twice' % (a + k))
+            mem[key] = int(w, 16)
+            tot += int(w, 16)
+        sums.append((int(m.group(3), 16), tot & 0xffff))
+    return mem, entry, {'sums': sums}
+
+
+def dec_mico8(text):
+    """Lattice Mico8 prom_init: one 18-bit instruction word per line as five hex digits, no addresses (first line = address 0)"""
+    mem = {}
+    for k, ln in enumerate(l for l in text.split('\n') if l):
+        if not re.fullmatch(r'[0-3][0-9A-Fa-f]{4}', ln):
+            raise FmtErr('line ' + ln[:40])
+        mem[k] = int(ln, 16)
+    return mem, None, {}
+
+
 def dec_atmel(text, alen=3):
     """Atmel generic: AAAAAA:DDDD - word address, 16-bit word"""
     mem = {}
